@@ -6,8 +6,9 @@
    crc_spec), and it answers (never runs out of fuel) on every byte list.  The extracted
    walker is run on every file the implementation produces (tools/props/C05_walk.py).
    Proofs are in FormatProofs.v and DecodeProofs.v.
-   Not covered by the soundness theorem (checked at run time by dw_walk, no theorem): track head
-   tables, index entry targets/timestamps, payload length formulas, rebuilt content. *)
+   Not covered by a theorem (checked at run time by dw_walk only): payload length formulas of DATA/SUMMARY
+   chunks, entry sizes of DATA/SUMMARY chunks, the annotation/UTC DATA layouts, and that the rebuilt content
+   record is the content of the chunks (it is a plain projection of the validated chunks: dw_sig_of). *)
 From Coq Require Import NArith ZArith List.
 From JLS Require Import Generated CrcDefs CrcProofs Spec Format FormatProofs Decode DecodeProofs.
 Import ListNotations.
@@ -111,6 +112,33 @@ Theorem C05_walk_report_sound : forall f w, bytes_ok f -> dw_walk_report f = DwO
   dw_index_summary_ok (dw_w_chunks w).
 Proof. exact dw_walk_report_sound_explicit. Qed.
 Print Assumptions C05_walk_report_sound.
+
+(* pointers.  dw_track_ok l c, for a track chunk c (unfold it to read the statement): its signal is defined by an earlier
+   SIGNAL_DEF chunk sc with decoded definition d; a DEF chunk has an empty payload; a HEAD chunk has a 128-byte payload whose
+   16 u64 entries equal dw_find_head of (DATA list of the track) / (INDEX list of level L) (specified by C05_head_entry_spec);
+   an INDEX chunk has a payload header ph with payload_length = 16 + entry_count * entry_size_bits / 8, and
+     FSR: u64 entries; entry k is 0 (level 1 only: data omitted) or the offset of a chunk of the file which is an FSR DATA
+          chunk of the signal (level 1) / an INDEX chunk of level - 1 (level > 1) whose payload-header timestamp equals
+          ph.timestamp + k * step, step = dw_fsr_step d level (samples_per_data; samples_per_data * (entries_per_summary /
+          (samples_per_data / sample_decimate_factor)); then * summary_decimate_factor per level);
+     annotation / UTC: (timestamp, offset) entries; each offset is a chunk of the file of the expected list identity
+          (DATA of that track and signal / INDEX of level - 1) whose payload-header timestamp equals the entry's timestamp. *)
+Theorem C05_walk_sound_pointers : forall f w, dw_walk f = DwOk w -> Forall (dw_track_ok (dw_w_chunks w)) (dw_w_chunks w).
+Proof. exact dw_walk_sound_pointers. Qed.
+Print Assumptions C05_walk_sound_pointers.
+
+Theorem C05_walk_report_sound_pointers : forall f w, dw_walk_report f = DwOk w -> Forall (dw_track_ok (dw_w_chunks w)) (dw_w_chunks w).
+Proof. exact dw_walk_report_sound_pointers. Qed.
+Print Assumptions C05_walk_report_sound_pointers.
+
+(* a head-table value: the first chunk (item_prev = 0) of the list, or 0 exactly when the list has no first chunk *)
+Theorem C05_head_entry_spec : forall strict f w k, bytes_ok f -> dw_walk_gen strict f = DwOk w -> k <> DwK_end ->
+  let l := dw_w_chunks w in
+  let e := dw_find_head k (dw_heads l) in
+  (e <> 0 -> exists c, In c l /\ dw_off c = e /\ dw_key_of (dw_hdr c) = inr k /\ fm_item_prev (dw_hdr c) = 0) /\
+  (e = 0 -> forall c, In c l -> dw_key_of (dw_hdr c) = inr k -> fm_item_prev (dw_hdr c) <> 0).
+Proof. exact dw_walk_find_head_spec. Qed.
+Print Assumptions C05_head_entry_spec.
 
 (* termination by structure: fuel = number of bytes is never exhausted *)
 Theorem C05_walk_total : forall f, (exists w, dw_walk f = DwOk w) \/ (exists e o, dw_walk f = DwErr e o /\ e <> DwE_fuel).
